@@ -61,6 +61,7 @@ type Contract struct {
 	GhostLocals []string
 	LoopHints   map[int][]Clause
 	LoopDo      map[int][]GhostAssign
+	LoopRemap   map[ast.Node]int         // loops that moved (into a new helper without a contract): node -> the ordinal the contract knows them by
 	LoopMods    map[int][]ast.Expr       // loop N modifies ...: what one iteration may change on the heap (default: syntactic effects)
 	OnCall      map[string][]GhostAssign // "<callee name>:<ordinal>:before|after" -> ghost assignments at that call site
 	SelAsserts  map[string][]Clause      // "N:default" / "N:K" -> assertions at the start of that branch of the N-th select statement
